@@ -123,3 +123,34 @@ def uninterpreted(*sig):
 
 def axiom(f):
     return f
+
+
+def opaque(*sig):
+    def deco(f):
+        return f
+    return deco
+
+
+def src_T(x):
+    """ghost: the whole byte string of a finite source (E1)"""
+    if isinstance(x, (bytes, bytearray)):
+        return bytes(x)
+    if hasattr(x, 'ghost_T'):
+        return x.ghost_T
+    return x.getvalue()
+
+
+def src_R(x):
+    if hasattr(x, 'ghost_R'):
+        return x.ghost_R
+    return x.tell()
+
+
+def is_none(x):
+    return x is None
+
+
+def use(instance):
+    """ghost programs: instantiate a lemma schema; natively the instance is checked to be true"""
+    assert instance, "lemma schema instance is false"
+    return True
